@@ -23,6 +23,7 @@ DIRS = {
 TEMPLATE = '''
 theorem apply_slide_{d}_{cl} (basis : Array W) (p : Pos) (x y : Nat) {hyps}
     (h64 : p.cfg.size * p.cfg.size ≤ 64) (hply : 2 ≤ p.move) (hw : p.toMove = .{color})
+    (hdis : ∀ k, p.white.getLsbD k = true → p.black.getLsbD k = true → False)
     (hown : p.{own}.getLsbD (x + y * p.cfg.size) = true){extra_h}
     (hns : p.standing.getLsbD (x + y * p.cfg.size) = false)
     (hnc : p.caps.getLsbD (x + y * p.cfg.size) = false)
@@ -30,7 +31,7 @@ theorem apply_slide_{d}_{cl} (basis : Array W) (p : Pos) (x y : Nat) {hyps}
     (hts : p.standing.getLsbD ({tx} + ({ty}) * p.cfg.size) = false)
     (htc : p.caps.getLsbD ({tx} + ({ty}) * p.cfg.size) = false) :
     ∃ q, p.apply basis ⟨x, y, {T}, 1#32⟩ = .ok q ∧
-      After p q (x + y * p.cfg.size) ({tx} + ({ty}) * p.cfg.size) p.{own} q.{own} := by
+      After p q (x + y * p.cfg.size) ({tx} + ({ty}) * p.cfg.size) p.{own} q.{own} p.{opp} q.{opp} := by
   have h2 : ¬ (p.move < 2) := by omega
   have hx' : ¬ ((p.cfg.size : Int) ≤ x) := by omega
   have hy' : ¬ ((p.cfg.size : Int) ≤ y) := by omega
@@ -67,7 +68,7 @@ theorem apply_slide_{d}_{cl} (basis : Array W) (p : Pos) (x y : Nat) {hyps}
   · unfold Pos.apply
     simp [Facts.mtSlideRight, Facts.mtSlideLeft, Facts.mtSlideUp, Facts.mtSlideDown, Facts.mtPass, Facts.mtPlaceFlat,
       Facts.mtPlaceStanding, Facts.mtPlaceCapstone,
-      hw, h2, hx', hy', hxn, hyn, hidx, elems_one, hown, htop, hsz, hh1, slideLoop, slideStep, hidx2, hb1, hb2, hb3, hb4,
+      hw, h2, hx', hy', hxn, hyn, hidx, elems_one, hown, htop, hsz, hh1, slideLoop, slideStep, dispatch, openingRule, slideFrom, liftFrom, dropOn, enterSquare, Pos.setStack, hidx2, hb1, hb2, hb3, hb4,
       c1, c2, bind, Except.bind]
     apply finish_exists
     intro wg bg hwg hbg
@@ -76,7 +77,7 @@ theorem apply_slide_{d}_{cl} (basis : Array W) (p : Pos) (x y : Nat) {hyps}
     · unfold Pos.apply
       simp [Facts.mtSlideRight, Facts.mtSlideLeft, Facts.mtSlideUp, Facts.mtSlideDown, Facts.mtPass, Facts.mtPlaceFlat,
         Facts.mtPlaceStanding, Facts.mtPlaceCapstone,
-        hw, h2, hx', hy', hxn, hyn, hidx, elems_one, hown, htop, hsz, hh1, hh0, hb, slideLoop, slideStep, hidx2, hb1, hb2,
+        hw, h2, hx', hy', hxn, hyn, hidx, elems_one, hown, htop, hsz, hh1, hh0, hb, slideLoop, slideStep, dispatch, openingRule, slideFrom, liftFrom, dropOn, enterSquare, Pos.setStack, hidx2, hb1, hb2,
         hb3, hb4, c1, c2, bind, Except.bind]
       apply finish_exists
       intro wg bg hwg hbg
@@ -84,7 +85,7 @@ theorem apply_slide_{d}_{cl} (basis : Array W) (p : Pos) (x y : Nat) {hyps}
     · unfold Pos.apply
       simp [Facts.mtSlideRight, Facts.mtSlideLeft, Facts.mtSlideUp, Facts.mtSlideDown, Facts.mtPass, Facts.mtPlaceFlat,
         Facts.mtPlaceStanding, Facts.mtPlaceCapstone,
-        hw, h2, hx', hy', hxn, hyn, hidx, elems_one, hown, htop, hsz, hh1, hh0, hb, slideLoop, slideStep, hidx2, hb1, hb2,
+        hw, h2, hx', hy', hxn, hyn, hidx, elems_one, hown, htop, hsz, hh1, hh0, hb, slideLoop, slideStep, dispatch, openingRule, slideFrom, liftFrom, dropOn, enterSquare, Pos.setStack, hidx2, hb1, hb2,
         hb3, hb4, c1, c2, bind, Except.bind]
       apply finish_exists
       intro wg bg hwg hbg
@@ -102,7 +103,7 @@ def gen(color):
     extra_s = '' if color == 'white' else ', hnw'
     out = HEAD.replace('COLOR', color)
     for d, v in DIRS.items():
-        out += TEMPLATE.format(d=d, cl=cl, color=color, own=own, extra_h=extra_h, extra_s=extra_s, hne_proof=HNE[d], **v)
+        out += TEMPLATE.format(d=d, cl=cl, color=color, own=own, opp=('black' if color == 'white' else 'white'), extra_h=extra_h, extra_s=extra_s, hne_proof=HNE[d], **v)
     out += '\nend C19\n'
     return out
 open(sys.argv[1] + '/ThreatMoveW.lean', 'w').write(gen('white'))
